@@ -254,7 +254,28 @@ def _expected_tracks_observed(b, s, tail, head, blocks):
                 outside = outside or ds[0][0] not in blocks
                 op = ds[0][3]['op']
                 continue
-            return not (outside and any(x[0] in blocks for x in ds))
+            if outside and any(x[0] in blocks for x in ds):
+                return False
+            if any(x[0] in blocks for x in ds):
+                return True   # the variable is refreshed inside the loop (from the failure value or a new read)
+            # expected is the same value on every trip (a parameter, a value read before the loop): then the loop may only go round
+            # while a FRESH observation made inside the loop equals it (`let old = load(); if old != current { return }; cas(current, ..)`);
+            # without that a lost race is retried with the same stale expectation for ever (`let head = load(); while cas(head, ..).is_err() {}`)
+            esrc = b.origins(exp)
+            for (sbb, succ, val) in U.dominating_branches(b, s.bb, unwind=False):
+                if sbb not in blocks:
+                    continue
+                r = U.bool_outcome(b, sbb, val)
+                if not r or not r[0] or r[0][0] != 'rv' or r[0][3]['k'] != 'binop' or r[0][3]['op'] not in ('Eq', 'Ne'):
+                    continue
+                rv, truth = r[0][3], r[1]
+                if (rv['op'] == 'Eq') != truth:
+                    continue
+                for x, y in ((rv['l'], rv['r']), (rv['r'], rv['l'])):
+                    fresh = any(o[0] == 'call' and o[1] in blocks for o in b.origins(x, through_calls=lambda t: [0] if U.callee_name(t) in ('as_ptr', 'as_raw', 'deref', 'borrow', 'cast') else None) - esrc)
+                    if fresh and (b.origins(y) & esrc or b.origins(y) == esrc):
+                        return True
+            return False
         return True
     # the branch in the loop that dominates the exchange: local == C taken on the equal outcome, local carried from the failure value
     for (sbb, succ, val) in U.dominating_branches(b, s.bb, unwind=False):
